@@ -37,7 +37,7 @@ EXCLUDED_DIRS = ("core", )
 # (module, function path, sha256[:16] of ast.dump of the function as of the tree the replica was derived from)
 REPLICA_ANCHORS = [
     ("symplyphysics.docs.patch", "patch_sympy_evaluate", "b7ce6be4fff4f5f5"),
-    ("symplyphysics.docs.parse", "find_members_and_functions", "a26edcada915933d"),
+    ("symplyphysics.docs.parse", "find_members_and_functions", "1becaf93e0dab741"),
     ("symplyphysics.docs.parse", "find_title_and_description", "6407bbfba17c09e5"),
 ]
 
@@ -511,6 +511,15 @@ def unsubstituted_placeholders(fn: ast.AST):
                             yield x, mt.group(1)
 
 
+def _symbols_submodules(run: Run, w: World) -> dict:
+    out = {}
+    for m in run.src.mods.values():
+        if m.name.startswith(PKG + ".symbols.") and m.name.count(".") == 2:
+            env = w.env(m.name)
+            out[m.name.rsplit(".", 1)[1]] = (m, {n: v for n, v in env.names.items() if v.kind in ("expr", "any") and v.ident is not None})
+    return out
+
+
 def _d8(run: Run, w: World) -> None:
     from ..flow import conditions_for
     for modname, cls in ((DOCS + "symbols_role", "Symbol"), (DOCS + "quantity_notation_role", "Quantity")):
@@ -557,6 +566,50 @@ def _d8(run: Run, w: World) -> None:
                             f"f-string `{norm(node, 70)}` in {fn.name} emits the literal text `{{{name}}}` although `{name}` is a variable in scope: "
                             f"the value is not substituted, so the page shows the placeholder instead of the module's own rendering")
     run.floor("D8", n, 40, "functions of the documentation generator scanned for unsubstituted placeholders")
+    # the symbols role: the unknown-name refusal is live, and a name defined in several modules is linked to the module whose object symbols.<name> is
+    rm = run.src.need(DOCS + "symbols_role")
+    ps = next((f_ for f_ in rm.tree.body if isinstance(f_, ast.FunctionDef) and f_.name == "process_string"), None)
+    if ps is None:
+        raise AnalysisError("C19: symbols_role.process_string not found")
+    run.ob("D8", "symbols_role:unknown-name-refused")
+    raises = [x for x in ast.walk(ps) if isinstance(x, ast.Raise)]
+    live = False
+    for lp in [x for x in ast.walk(ps) if isinstance(x, ast.For)]:
+        if any(isinstance(y, ast.Raise) for st_ in lp.orelse for y in ast.walk(st_)):
+            live = True  # for ... else: raise
+        targets = {y.id for y in ast.walk(lp.target) if isinstance(y, ast.Name)}
+        for t_ in [x for x in ast.walk(ps) if isinstance(x, ast.If) and any(isinstance(y, ast.Raise) for y in ast.walk(x)) and getattr(x, "lineno", 0) > lp.lineno]:
+            tested = {y.id for y in ast.walk(t_.test) if isinstance(y, ast.Name)}
+            if tested and not (tested & targets) and any(isinstance(a_, ast.Assign) and any(isinstance(tt, ast.Name) and tt.id in tested for tt in a_.targets) for st_ in lp.body for a_ in ast.walk(st_)):
+                live = True  # a found-flag set inside the loop and tested afterwards
+    if not (raises and live):
+        run.violate("D8", f"{DOCS}symbols_role:process_string:dead-refusal", rm, ps,
+                    "the 'Unknown symbol' refusal of the :symbols: role cannot fire: the variable it tests is the loop variable itself, which always holds the last module "
+                    "scanned - a mistyped or removed symbol name is silently linked to a page that does not define it")
+    run.ob("D8", "symbols_role:exported-object")
+    ident = any(isinstance(c_, ast.Compare) and any(isinstance(o_, ast.Is) for o_ in c_.ops) and "getattr" in {dotted(y.func) for y in ast.walk(c_) if isinstance(y, ast.Call)}
+                for c_ in ast.walk(ps)) or any(isinstance(c_, ast.Compare) and any(isinstance(o_, ast.Is) for o_ in c_.ops) for c_ in ast.walk(ps))
+    if not ident:
+        # without an identity test the first module (in sorted order) that has the name wins; that is only right when no name is defined twice
+        dup = {}
+        for sub, (m_, names_) in _symbols_submodules(run, w).items():
+            for n_, v_ in names_.items():
+                dup.setdefault(n_, set()).add((sub, v_.ident))
+        clashes = sorted(n_ for n_, v_ in dup.items() if len({i_ for _, i_ in v_}) > 1)
+        if clashes:
+            run.violate("D8", f"{DOCS}symbols_role:process_string:first-module-wins", rm, ps,
+                        f"the :symbols: role links a name to the first module that has an attribute of that name; {clashes} are defined as different objects in several "
+                        f"modules, so pages are cross-referenced to a symbol that is not the one their equation is written in")
+    # the patched module is executed under try/finally: evaluation is restored also when a page fails
+    pm_ = run.src.need(DOCS + "parse")
+    run.ob("D7", "exec-restores-evaluation-on-failure")
+    execs = [x for x in ast.walk(pm_.tree) if isinstance(x, ast.Call) and dotted(x.func) == "exec"]
+    guarded = [x for x in ast.walk(pm_.tree) if isinstance(x, ast.Try) and any(isinstance(y, ast.Call) and dotted(y.func) == "exec" for st_ in x.body for y in ast.walk(st_))
+               and any(isinstance(y, ast.Call) and (dotted(y.func) or "").endswith("reset_sympy_evaluation") for st_ in x.finalbody for y in ast.walk(st_))]
+    if execs and len(guarded) < len(execs):
+        run.violate("D7", f"{DOCS}parse:exec-without-finally", pm_, execs[0],
+                    "the patched module is executed without try/finally: when a documented member raises between the inserted disable and reset statements, SymPy's global "
+                    "evaluation mode stays off for everything that runs afterwards")
     # an indexed symbol is shown with ITS OWN index (x[k] when it was declared over k), not with the default one
     ni = 0
     for m in run.src.mods.values():
